@@ -512,3 +512,8 @@ MUTANTS = [
             if(mp->length == 0)
                 mp->state = 0;""", 'expect': None},
 ]
+
+
+# SESSION7 additions to the claim (clauses added in DESIGN section 12)
+CLAIM['technique'] += '; fixed-size array extents and size pairs in the download units'
+CLAIM['text'] += " C17-f/g: the callbacks' fixed-size scratch arrays and carried-over buffers are accessed within their extents."
